@@ -81,6 +81,23 @@ func TestC19(t *testing.T) {
 				m.msg.Type = sse.Type(ty)
 				m.model.HasType, m.model.Type = true, ty
 				ops = append(ops, fmt.Sprintf("m%d.Type=%s", j, ty))
+			case x == 9 && rng.IntN(2) == 0:
+				// UnmarshalText into a member replaces its content; nobody else may notice
+				nm := &ref.Msg{}
+				nl := rng.IntN(4)
+				for q := 0; q < nl; q++ {
+					nm.Append(rng.IntN(4) == 0, "u"+strconv.Itoa(k)+"-"+strconv.Itoa(q))
+				}
+				if nl == 0 || rng.IntN(3) == 0 {
+					nm.HasID, nm.ID = true, "uid"+strconv.Itoa(k)
+				}
+				if err := m.msg.UnmarshalText([]byte(nm.Encode())); err != nil {
+					r.Violation(key, []string{"unmarshal_failed"}, map[string]any{"ops": ops, "wire": nm.Encode()}, "C19: UnmarshalText of a valid encoding failed: %v", err)
+					ok = false
+					break
+				}
+				*m.model = *nm
+				ops = append(ops, fmt.Sprintf("m%d.UnmarshalText(%s)", j, fw.Q(nm.Encode())))
 			case x == 9:
 				d := time.Duration(1+rng.IntN(5000)) * time.Millisecond
 				m.msg.Retry = d
@@ -143,9 +160,12 @@ func TestC19(t *testing.T) {
 	}
 	r.Exhaustive("clone taken after 0..12 appends x all 6 orders of appending to the original and two sibling clones")
 
-	// (C) publishing the same message n times through Put directly
+	// (C) publishing a small pool of messages many times through Put directly: no Put may change
+	// any message of the pool (the argument of this or of an earlier call) nor any copy returned by
+	// an earlier Put; automatic IDs are consecutive over the whole history, also across expiry and
+	// collection (ValidReplayer with an injected clock).
 	kinds := []string{"finite:auto", "finite:manual", "valid:auto", "valid:manual"}
-	m := r.N(2000, 40000)
+	m := r.N(2500, 50000)
 	for i := 0; i < m; i++ {
 		if !r.Mine("C", i) {
 			continue
@@ -155,61 +175,110 @@ func TestC19(t *testing.T) {
 		kind := kinds[rng.IntN(len(kinds))]
 		auto := strings.HasSuffix(kind, ":auto")
 		var rp sse.Replayer
+		now := c09Epoch
+		ttl := time.Duration(100)
+		capN := 2 + rng.IntN(4)
 		if strings.HasPrefix(kind, "finite") {
-			rp, _ = sse.NewFiniteReplayer(2+rng.IntN(5), auto)
+			rp, _ = sse.NewFiniteReplayer(capN, auto)
 		} else {
-			rp, _ = sse.NewValidReplayer(time.Hour, auto)
+			vr, _ := sse.NewValidReplayer(ttl, auto)
+			vr.Now = func() time.Time { return now }
+			rp = vr
 		}
-		b := genMessage(rng, true, false)
-		if auto {
-			b.Msg.ID = sse.EventID{}
-			b.Model.HasID, b.Model.ID = false, ""
-		} else if !b.Model.HasID {
-			b.Msg.ID = sse.ID("manual")
-			b.Model.HasID, b.Model.ID = true, "manual"
+		npool := 1 + rng.IntN(4)
+		pool := make([]*builtMsg, npool)
+		enc := make([]string, npool)
+		for q := range pool {
+			b := genMessage(rng, true, false)
+			for len(b.Model.Lines) > 12 {
+				b = genMessage(rng, true, false)
+			}
+			if auto {
+				b.Msg.ID = sse.EventID{}
+				b.Model.HasID, b.Model.ID = false, ""
+			} else if !b.Model.HasID {
+				b.Msg.ID = sse.ID("manual" + strconv.Itoa(q))
+				b.Model.HasID, b.Model.ID = true, "manual"+strconv.Itoa(q)
+			}
+			pool[q] = b
+			enc[q] = b.Msg.String()
 		}
-		r.Begin(key, kind+" "+strings.Join(b.Ops, "; "))
-		before := b.Msg.String()
-		times := 2 + rng.IntN(6)
+		r.Begin(key, fmt.Sprintf("%s pool=%d cap=%d", kind, npool, capN))
+		times := 2 + rng.IntN(3*capN+4)
+		type ret struct {
+			msg *sse.Message
+			enc string
+		}
+		var rets []ret
 		var ids []string
+		var hist []string
 		bad := false
 		for k := 0; k < times && !bad; k++ {
-			got, err := rp.Put(b.Msg, []string{"t"})
+			q := rng.IntN(npool)
+			if strings.HasPrefix(kind, "valid") && rng.IntN(4) == 0 {
+				d := []time.Duration{ttl / 2, ttl, 3 * ttl}[rng.IntN(3)]
+				now = now.Add(d)
+				hist = append(hist, fmt.Sprintf("advance(%d)", d))
+				if rng.IntN(3) == 0 {
+					rp.(*sse.ValidReplayer).GC()
+					hist = append(hist, "GC")
+				}
+			}
+			got, err := rp.Put(pool[q].Msg, []string{"t"})
+			hist = append(hist, fmt.Sprintf("Put(pool[%d])", q))
 			r.Count("puts", 1)
 			if err != nil || got == nil {
-				r.Violation(key, []string{"republish_rejected"}, map[string]any{"kind": kind, "ops": b.Ops, "put_number": k + 1, "err": fmt.Sprint(err)}, "C19: Put #%d of the same message failed: %v", k+1, err)
+				r.Violation(key, []string{"republish_rejected"}, map[string]any{"kind": kind, "history": hist, "err": fmt.Sprint(err)}, "C19: Put #%d failed: %v", k+1, err)
 				bad = true
 				break
 			}
-			if b.Msg.String() != before || b.Msg.ID.IsSet() != b.Model.HasID {
-				r.Violation(key, []string{"put_mutates_argument"}, map[string]any{"kind": kind, "ops": b.Ops, "before": fw.Q(fw.Trunc(before, 300)), "after": fw.Q(fw.Trunc(b.Msg.String(), 300))}, "C19: Put #%d modified the message it was given", k+1)
-				bad = true
+			for x := range pool {
+				if pool[x].Msg.String() != enc[x] || pool[x].Msg.ID.IsSet() != pool[x].Model.HasID {
+					tags := []string{"put_mutates_argument"}
+					if x != q {
+						tags = []string{"put_mutates_earlier_message"}
+					}
+					r.Violation(key, tags, map[string]any{"kind": kind, "history": hist, "message": x, "before": fw.Q(fw.Trunc(enc[x], 300)), "after": fw.Q(fw.Trunc(pool[x].Msg.String(), 300))}, "C19: after Put #%d (of pool[%d]) pool[%d] encodes differently", k+1, q, x)
+					bad = true
+					break
+				}
+			}
+			if bad {
+				break
+			}
+			for x, rt := range rets {
+				if rt.msg.String() != rt.enc {
+					r.Violation(key, []string{"put_mutates_earlier_returned_message"}, map[string]any{"kind": kind, "history": hist, "returned_by_put": x + 1, "before": fw.Q(fw.Trunc(rt.enc, 300)), "after": fw.Q(fw.Trunc(rt.msg.String(), 300))}, "C19: after Put #%d the message returned by Put #%d changed", k+1, x+1)
+					bad = true
+					break
+				}
+			}
+			if bad {
 				break
 			}
 			ids = append(ids, got.ID.String())
-			// the returned message is independent of the argument: appending to one leaves the other alone
+			rets = append(rets, ret{got, got.String()})
 			if auto {
-				enc := got.String()
-				b.Msg.AppendComment("touch" + strconv.Itoa(k))
-				b.Model.Append(true, "touch"+strconv.Itoa(k))
-				before = b.Msg.String()
-				if got.String() != enc {
-					r.Violation(key, []string{"stored_copy_aliases_argument"}, map[string]any{"kind": kind, "ops": b.Ops}, "C19: appending to the caller's message changed the copy held by the replayer")
+				// the stored copy is independent of the argument
+				e := got.String()
+				pool[q].Msg.AppendComment("touch" + strconv.Itoa(k))
+				pool[q].Model.Append(true, "touch"+strconv.Itoa(k))
+				enc[q] = pool[q].Msg.String()
+				if got.String() != e {
+					r.Violation(key, []string{"stored_copy_aliases_argument"}, map[string]any{"kind": kind, "history": hist}, "C19: appending to the caller's message changed the copy held by the replayer")
 					bad = true
 				}
 			}
 		}
 		if auto && !bad {
-			for k := 1; k < len(ids); k++ {
-				a, _ := strconv.Atoi(ids[k-1])
-				c, err := strconv.Atoi(ids[k])
-				if err != nil || c != a+1 {
-					r.Violation(key, []string{"auto_ids_not_consecutive"}, map[string]any{"kind": kind, "ids": ids}, "C19: publishing one message %d times gave IDs %v", times, ids)
+			for k := range ids {
+				if ids[k] != strconv.Itoa(k) {
+					r.Violation(key, []string{"auto_ids_not_consecutive"}, map[string]any{"kind": kind, "history": hist, "ids": ids}, "C19: %d publications got IDs %v, want 0,1,2,...", len(ids), ids)
 					break
 				}
 			}
 		}
-		r.Eval(fw.Hash("C", kind, before, strconv.Itoa(times)), true)
+		r.Eval(fw.Hash("C", kind, strings.Join(hist, ";"), strings.Join(enc, "|")), true)
 	}
 
 	// (D) through Joe: the same *Message published several times, also concurrently
